@@ -12,13 +12,14 @@ from common import T_COMMON
 # n = number of generated histories (each gives 4 lines, every second one also one deporder line per struct node).
 CFG = dict(
     theorems=["reachable_inv", "spec_is_from_scratch", "outdated_is_outdated", "eval_is_value",
-              "read_fresh", "processed_is_fresh", "eval_frame",
-              "reads_idempotent", "exec_only_if_outdated", "exec_only_if_changed", "reexecution_needs_change",
-              "version_counts_executions", "struct_version_counts_executions", "version_step_exact",
-              "remembered_length", "permuted_deps_spurious", "permuted_deps_still_fresh_partial",
+              "read_fresh", "processed_is_fresh", "eval_frame", "exec_only_if_outdated", "exec_only_if_changed",
+              "version_counts_executions", "struct_version_counts_executions", "version_step_exact", "remembered_length",
+              # guarded by ReadsAll (processors that read all their wired inputs):
+              "reads_idempotent", "executed_then_processed", "reexecution_needs_change",
+              "permuted_deps_spurious", "permuted_deps_still_fresh_partial",
               "skipping_processor_spurious", "no_spurious_full_false"],
     # corollaries / tooling, kernel-checked with the module but not counted as property obligations (ignored by the check)
-    helper_theorems=["inCone_iff_reach", "valid_fixed_numbering", "stable_deps_not_spurious"],
+    helper_theorems=["inCone_iff_reach", "valid_fixed_numbering", "stable_deps_not_spurious", "spec_reads_all"],
     streams=[dict(name="c11", n=dict(quick=6000, thorough=100000))],
     trusted=[T_COMMON[1], T_COMMON[2],
              "hand-written model PolyVerif/Model/Nodes.lean of nodes/struct_node.go, value_node.go, parameter/value.go "
